@@ -48,6 +48,15 @@ func runC19(c *Cfg) {
 	case strings.HasPrefix(c.Replay, "base:"):
 		c19BaselineChild(strings.TrimPrefix(c.Replay, "base:"))
 		return
+	case strings.HasPrefix(c.Replay, "hist:"):
+		c19HistChild(strings.TrimPrefix(c.Replay, "hist:"))
+		return
+	case strings.HasPrefix(c.Replay, "types:"):
+		c19TypeChild(strings.TrimPrefix(c.Replay, "types:"))
+		return
+	case strings.HasPrefix(c.Replay, "conc:"):
+		c19ConcChild(strings.TrimPrefix(c.Replay, "conc:"))
+		return
 	case strings.HasPrefix(c.Replay, "repro:"):
 		c19Repro(strings.TrimPrefix(c.Replay, "repro:"))
 		return
@@ -79,6 +88,7 @@ func runC19(c *Cfg) {
 	c19Concurrent(c, cases, base, c.Pick(4, 6))
 	fmt.Fprintf(os.Stderr, "C19: concurrent phase done after %v\n", time.Since(t0).Round(time.Millisecond))
 
+	c19TypeStress(c, root.Sub())
 	c19RaceStage(c, rb, root.Sub())
 	fmt.Fprintf(os.Stderr, "C19: done after %v\n", time.Since(t0).Round(time.Millisecond))
 }
@@ -123,72 +133,39 @@ func c19Intern(c *Cfg, r *Rng) {
 		c.Count("intern.seq")
 	}
 
-	// hist: concurrent getKey / IndexToString
-	for n := 0; n < c.Pick(150, 3000); n++ {
-		g := 2 + r.Intn(15)
-		pool := make([]string, 1+r.Intn(8))
-		for i := range pool {
-			pool[i] = newKey()
+	// hist: concurrent getKey / IndexToString, in a child process (a fatal "concurrent map
+	// writes" must not take the harness down: it is reported with its input)
+	{
+		dir := filepath.Join(c.Out, "hist")
+		os.MkdirAll(dir, 0o777)
+		outp := filepath.Join(dir, "out.json")
+		rounds := c.Pick(150, 3000)
+		cmd := exec.Command(os.Args[0], "C19", "-replay", fmt.Sprintf("hist:%d:%d:%s", r.U64()%1000000007, rounds, outp), "-out", dir, "-tier", c.Tier)
+		var eb bytes.Buffer
+		cmd.Stderr = &eb
+		err := cmd.Run()
+		var recs []c19HistRec
+		ob, rerr := os.ReadFile(outp)
+		if err != nil || rerr != nil || json.Unmarshal(ob, &recs) != nil {
+			c.Direct(false, "intern-crash", "2-16 goroutines calling StringToIndex/IndexToString on fresh strings crashed the process",
+				map[string]any{"err": fmt.Sprint(err), "stderr_head": c19Head(eb.String(), 2500), "rounds": rounds})
 		}
-		per := 1 + r.Intn(6)
-		plan := make([][]string, g)
-		skew := make([]int, g)
-		for i := range plan {
-			for j := 0; j < per; j++ {
-				plan[i] = append(plan[i], Pick(r, pool))
+		for _, rec := range recs {
+			if rec.Timeout {
+				c.Direct(false, "deadlock-intern", "concurrent StringToIndex/IndexToString did not finish within 60s", map[string]any{"plan": rec.Plan})
+				continue
 			}
-			skew[i] = r.Intn(300) * r.Intn(3)
-		}
-		b := base()
-		type ob struct {
-			k string
-			i int64
-		}
-		obs := make([][]ob, g)
-		nameOK := int32(1)
-		start := make(chan struct{})
-		var wg sync.WaitGroup
-		for i := 0; i < g; i++ {
-			wg.Add(1)
-			go func(i int) {
-				defer wg.Done()
-				<-start
-				c19Spin(skew[i])
-				for _, k := range plan[i] {
-					idx := rt.StringToIndex(k)
-					obs[i] = append(obs[i], ob{k, idx})
-					if rt.IndexToString(idx) != k {
-						atomic.StoreInt32(&nameOK, 0)
-					}
-				}
-			}(i)
-		}
-		close(start)
-		if !c19WaitTimeout(&wg, 60*time.Second) {
-			c.Direct(false, "deadlock-intern", "concurrent StringToIndex/IndexToString did not finish within 60s", map[string]any{"plan": plan})
-			return
-		}
-		var parts []string
-		for _, o := range obs {
-			for _, e := range o {
-				parts = append(parts, H(e.k)+":"+strconv.FormatInt(e.i, 10))
+			var parts []string
+			for _, o := range rec.Obs {
+				parts = append(parts, H(o.K)+":"+strconv.FormatInt(o.I, 10))
 			}
+			c.OpTag("O", "intern-history", fmt.Sprintf("hist %d %s", rec.Base, strings.Join(parts, ",")), "ok")
+			c.Direct(rec.NameOK, "intern-name", "IndexToString(StringToIndex(s)) != s under concurrency", map[string]any{"plan": rec.Plan})
+			c.Direct(rec.Same, "intern-reassigned", "an index handed out by StringToIndex changed afterwards", map[string]any{"plan": rec.Plan})
+			c.Trace()
+			c.Case("hist "+fmt.Sprint(rec.Plan), len(rec.Plan) >= 2 && rec.Pool > 1)
+			c.Count(fmt.Sprintf("intern.hist.g%02d", len(rec.Plan)))
 		}
-		c.Op("O", fmt.Sprintf("hist %d %s", b, strings.Join(parts, ",")), "ok")
-		c.Direct(nameOK == 1, "intern-name", "IndexToString(StringToIndex(s)) != s under concurrency", map[string]any{"plan": plan})
-		// later calls still give the same indices
-		same := true
-		for _, o := range obs {
-			for _, e := range o {
-				if rt.StringToIndex(e.k) != e.i {
-					same = false
-				}
-			}
-		}
-		c.Direct(same, "intern-reassigned", "an index handed out by StringToIndex changed afterwards", map[string]any{"plan": plan})
-		c.Trace()
-		c.Case("hist "+fmt.Sprint(plan), g >= 2 && len(pool) > 1)
-		c.Count(fmt.Sprintf("intern.hist.g%02d", g))
 	}
 
 	// sched: the executable model under random schedules, judged by the spec
@@ -209,6 +186,96 @@ func c19Intern(c *Cfg, r *Rng) {
 		c.Op("I", fmt.Sprintf("sched %d %s %s", r.Intn(4), hexKeys(ks), s), "ok")
 		c.Count("intern.sched")
 	}
+}
+
+type c19Ob struct {
+	K string `json:"k"`
+	I int64  `json:"i"`
+}
+
+type c19HistRec struct {
+	Base    int        `json:"base"`
+	Plan    [][]string `json:"plan"`
+	Pool    int        `json:"pool"`
+	Obs     []c19Ob    `json:"obs"`
+	NameOK  bool       `json:"name_ok"`
+	Same    bool       `json:"same"`
+	Timeout bool       `json:"timeout"`
+}
+
+// c19HistChild: spec = "<seed>:<rounds>:<out.json>"
+func c19HistChild(spec string) {
+	ps := strings.SplitN(spec, ":", 3)
+	seed, _ := strconv.ParseUint(ps[0], 10, 64)
+	rounds, _ := strconv.Atoi(ps[1])
+	r := NewRng(seed).Sub()
+	rt := runtime.New()
+	tag := fmt.Sprintf("c19h·%d·%d·", seed, os.Getpid())
+	fresh := 0
+	newKey := func() string { fresh++; return fmt.Sprintf("%s%d", tag, fresh) }
+	var recs []c19HistRec
+	for n := 0; n < rounds; n++ {
+		g := 2 + r.Intn(15)
+		pool := make([]string, 1+r.Intn(8))
+		for i := range pool {
+			pool[i] = newKey()
+		}
+		per := 1 + r.Intn(6)
+		plan := make([][]string, g)
+		skew := make([]int, g)
+		for i := range plan {
+			for j := 0; j < per; j++ {
+				plan[i] = append(plan[i], Pick(r, pool))
+			}
+			skew[i] = r.Intn(300) * r.Intn(3)
+		}
+		rec := c19HistRec{Plan: plan, Pool: len(pool), Base: int(rt.StringToIndex(newKey())) + 1}
+		obs := make([][]c19Ob, g)
+		nameOK := int32(1)
+		start := make(chan struct{})
+		var wg sync.WaitGroup
+		for i := 0; i < g; i++ {
+			wg.Add(1)
+			go func(i int) {
+				defer wg.Done()
+				<-start
+				c19Spin(skew[i])
+				for _, k := range plan[i] {
+					idx := rt.StringToIndex(k)
+					obs[i] = append(obs[i], c19Ob{k, idx})
+					if rt.IndexToString(idx) != k {
+						atomic.StoreInt32(&nameOK, 0)
+					}
+				}
+			}(i)
+		}
+		close(start)
+		if !c19WaitTimeout(&wg, 60*time.Second) {
+			rec.Timeout = true
+			recs = append(recs, rec)
+			break
+		}
+		rec.NameOK = nameOK == 1
+		rec.Same = true
+		for _, o := range obs {
+			for _, e := range o {
+				rec.Obs = append(rec.Obs, e)
+				if rt.StringToIndex(e.K) != e.I {
+					rec.Same = false
+				}
+			}
+		}
+		recs = append(recs, rec)
+	}
+	b, _ := json.Marshal(recs)
+	os.WriteFile(ps[2], b, 0o666)
+}
+
+func c19Head(s string, n int) string {
+	if len(s) > n {
+		return s[:n]
+	}
+	return s
 }
 
 func c19Spin(n int) {
@@ -358,27 +425,134 @@ func c19RunCase(cs *c19Case, sh *c19Shared, timeout time.Duration) []string {
 	return res
 }
 
-func c19Concurrent(c *Cfg, cases []*c19Case, base map[int][]string, par int) {
+// c19TypeStress runs the type-cache stress in a child process.
+func c19TypeStress(c *Cfg, r *Rng) {
+	dir := filepath.Join(c.Out, "types")
+	os.MkdirAll(dir, 0o777)
+	outp := filepath.Join(dir, "out.json")
+	rounds := c.Pick(12, 150)
+	if c.Focus {
+		rounds *= 3
+	}
+	cmd := exec.Command(os.Args[0], "C19", "-replay", fmt.Sprintf("types:%d:%d:%s", r.U64()%1000000007, rounds, outp), "-out", dir, "-tier", c.Tier)
+	var eb bytes.Buffer
+	cmd.Stderr = &eb
+	err := cmd.Run()
+	var out c19TypeOut
+	ob, rerr := os.ReadFile(outp)
+	if err != nil || rerr != nil || json.Unmarshal(ob, &out) != nil {
+		head := c19Head(eb.String(), 3000)
+		cls := "crash-typecache"
+		if strings.Contains(head, "fatal error: concurrent map") {
+			cls = "fatal-concurrent-map"
+		}
+		c.Direct(false, cls, "8-16 goroutines calling EncodeType/Encode/Decode for many Go struct types in one context crashed the process",
+			map[string]any{"err": fmt.Sprint(err), "stderr_head": head, "rounds": rounds})
+		return
+	}
+	c.Direct(!out.Timeout, "deadlock-typecache", "concurrent EncodeType/Decode did not finish", nil)
+	c.Direct(len(out.Mismatch) == 0, "conc-typecache", "EncodeType/Encode/Decode of a Go type gave another result concurrently than alone", map[string]any{"mismatch": out.Mismatch})
+	c.mu.Lock()
+	c.counts["typecache.ops"] += out.Ops
+	c.counts["typecache.rounds"] += out.Rounds
+	c.nDirect += out.Ops
+	c.mu.Unlock()
+}
+
+type c19ConcRes struct {
+	Res     []string `json:"res"`
+	After   []string `json:"after"`
+	Timeout bool     `json:"timeout"`
+	Exists  bool     `json:"exists"`
+}
+
+// c19ConcChild: spec = "<par>:<timeout s>:<in.json>:<out.json>"; `par` cases (= contexts) at
+// a time; per case the shared values are built once, the calls run on G goroutines, then
+// once more one after the other on the same shared values.
+func c19ConcChild(spec string) {
+	ps := strings.SplitN(spec, ":", 4)
+	par, _ := strconv.Atoi(ps[0])
+	tmo, _ := strconv.Atoi(ps[1])
+	b, err := os.ReadFile(ps[2])
+	var cases []*c19Case
+	if err != nil || json.Unmarshal(b, &cases) != nil {
+		fmt.Fprintln(os.Stderr, "bad input", err)
+		os.Exit(3)
+	}
+	out := map[int]*c19ConcRes{}
+	var mu sync.Mutex
 	sem := make(chan struct{}, par)
 	var wg sync.WaitGroup
 	for _, cs := range cases {
-		b, ok := base[cs.ID]
-		if !ok {
-			continue
-		}
 		wg.Add(1)
 		sem <- struct{}{}
-		go func(cs *c19Case, b []string) {
+		go func(cs *c19Case) {
 			defer wg.Done()
 			defer func() { <-sem }()
-			c19CheckCase(c, cs, b)
-		}(cs, b)
+			sh := c19Build(cs)
+			cr := &c19ConcRes{}
+			cr.Res = c19RunCase(cs, sh, time.Duration(tmo)*time.Second)
+			if cr.Res == nil {
+				cr.Timeout = true
+			} else {
+				memo := map[string]string{}
+				for _, call := range cs.Calls {
+					key := call.String()
+					got, ok := memo[key]
+					if !ok {
+						got = c19Exec(sh, call)
+						memo[key] = got
+					}
+					cr.After = append(cr.After, got)
+				}
+				cr.Exists = sh.v.Exists()
+			}
+			mu.Lock()
+			out[cs.ID] = cr
+			mu.Unlock()
+		}(cs)
 	}
 	wg.Wait()
+	ob, _ := json.Marshal(out)
+	os.WriteFile(ps[3], ob, 0o666)
 }
 
-func c19CheckCase(c *Cfg, cs *c19Case, b []string) {
-	sh := c19Build(cs)
+func c19Concurrent(c *Cfg, cases []*c19Case, base map[int][]string, par int) {
+	dir := filepath.Join(c.Out, "conc")
+	os.MkdirAll(dir, 0o777)
+	in, outp := filepath.Join(dir, "in.json"), filepath.Join(dir, "out.json")
+	var run []*c19Case
+	for _, cs := range cases {
+		if _, ok := base[cs.ID]; ok {
+			run = append(run, cs)
+		}
+	}
+	b, _ := json.Marshal(run)
+	os.WriteFile(in, b, 0o666)
+	cmd := exec.Command(os.Args[0], "C19", "-replay", fmt.Sprintf("conc:%d:%d:%s:%s", par, c.Pick(90, 240), in, outp), "-out", dir, "-tier", c.Tier)
+	var eb bytes.Buffer
+	cmd.Stderr = &eb
+	err := cmd.Run()
+	var res map[int]*c19ConcRes
+	ob, rerr := os.ReadFile(outp)
+	if err != nil || rerr != nil || json.Unmarshal(ob, &res) != nil {
+		head := c19Head(eb.String(), 3000)
+		cls := "crash-concurrent"
+		if strings.Contains(head, "fatal error: concurrent map") {
+			cls = "fatal-concurrent-map"
+		}
+		c.Direct(false, cls, "cue.Value methods running concurrently on shared values crashed the process (the same calls run alone do not)",
+			map[string]any{"err": fmt.Sprint(err), "stderr_head": head, "cases": len(run), "replay": "same seed and tier; cases in <scratch>/run/conc/in.json with --keep"})
+		return
+	}
+	for _, cs := range run {
+		if cr := res[cs.ID]; cr != nil {
+			c19CheckCase(c, cs, base[cs.ID], cr)
+		}
+	}
+}
+
+func c19CheckCase(c *Cfg, cs *c19Case, b []string, cr *c19ConcRes) {
 	replay := func(extra map[string]any) map[string]any {
 		m := map[string]any{"src": cs.Src, "src2": cs.Src2, "mode": cs.Mode, "goroutines": cs.G, "case_seed": cs.Seed, "ncalls": len(cs.Calls)}
 		for k, v := range extra {
@@ -386,11 +560,11 @@ func c19CheckCase(c *Cfg, cs *c19Case, b []string) {
 		}
 		return m
 	}
-	res := c19RunCase(cs, sh, time.Duration(c.Pick(90, 240))*time.Second)
-	if res == nil {
+	if cr.Timeout {
 		c.Direct(false, "deadlock", "the concurrent calls of one case did not finish (deadlock or livelock)", replay(map[string]any{"calls": cs.Calls}))
 		return
 	}
+	res := cr.Res
 	var diffs []c19Diff
 	kinds := map[string]bool{}
 	for k := range cs.Calls {
@@ -400,39 +574,61 @@ func c19CheckCase(c *Cfg, cs *c19Case, b []string) {
 		}
 	}
 	cls := c19Class("conc", kinds, cs.Mode)
+	if c19LayoutOnly(diffs, cs) {
+		cls = "conc-format-comment-layout"
+	}
 	c.Direct(len(diffs) == 0, cls, "a call executed concurrently with others on a shared value returned something else than when executed alone",
 		replay(map[string]any{"diffs": c19First(diffs, 4), "ndiffs": len(diffs), "calls": cs.Calls}))
 
 	// afterwards: the shared values must be unchanged — the same calls, one at a time
 	var diffs2 []c19Diff
 	kinds2 := map[string]bool{}
-	memo := map[string]string{}
 	for k, call := range cs.Calls {
-		key := call.String()
-		got, ok := memo[key]
-		if !ok {
-			got = c19Exec(sh, call)
-			memo[key] = got
-		}
-		if got != b[k] {
-			diffs2 = append(diffs2, c19Diff{key, k, c19Clip(got), c19Clip(b[k])})
+		if cr.After[k] != b[k] {
+			diffs2 = append(diffs2, c19Diff{call.String(), k, c19Clip(cr.After[k]), c19Clip(b[k])})
 			kinds2[call.Kind] = true
 		}
 	}
-	c.Direct(len(diffs2) == 0, c19Class("after", kinds2, cs.Mode), "after the concurrent calls a shared value answers differently than a fresh one (it was changed)",
+	cls2 := c19Class("after", kinds2, cs.Mode)
+	if c19LayoutOnly(diffs2, cs) {
+		cls2 = "after-format-comment-layout"
+	}
+	c.Direct(len(diffs2) == 0, cls2, "after the concurrent calls a shared value answers differently than a fresh one (it was changed)",
 		replay(map[string]any{"diffs": c19First(diffs2, 4), "ndiffs": len(diffs2), "calls": cs.Calls}))
 
-	nontriv := cs.G >= 2 && len(cs.Calls) >= 8 && sh.v.Exists()
+	nontriv := cs.G >= 2 && len(cs.Calls) >= 8 && cr.Exists
 	c.Case(fmt.Sprintf("%d|%s|%s|%v", cs.Mode, cs.Src, cs.Src2, cs.Calls), nontriv)
 	c.Count(fmt.Sprintf("mode.%d", cs.Mode))
 	c.Count(fmt.Sprintf("goroutines.%02d", cs.G))
 	for _, call := range cs.Calls {
 		c.Count("call." + call.Kind)
 	}
-	c.Count("calls.total")
 	c.mu.Lock()
-	c.counts["calls.total"] += len(cs.Calls) - 1
+	c.counts["calls.total"] += len(cs.Calls)
 	c.mu.Unlock()
+}
+
+// c19LayoutOnly: every difference is in white space only and the program has comments —
+// the root cause "cue/format sets relative positions in place on comment groups that the
+// results of Value.Syntax share" (known finding), not a different value.
+func c19LayoutOnly(ds []c19Diff, cs *c19Case) bool {
+	if len(ds) == 0 || !strings.Contains(cs.Src, "//") {
+		return false
+	}
+	strip := func(s string) string {
+		return strings.Map(func(r rune) rune {
+			if r == ' ' || r == '\n' || r == '\t' {
+				return -1
+			}
+			return r
+		}, s)
+	}
+	for _, d := range ds {
+		if strings.HasSuffix(d.Got, "…") || strip(d.Got) != strip(d.Baseline) {
+			return false
+		}
+	}
+	return true
 }
 
 func c19Class(prefix string, kinds map[string]bool, mode int) string {
@@ -448,8 +644,8 @@ func c19Class(prefix string, kinds map[string]bool, mode int) string {
 }
 
 func c19Clip(s string) string {
-	if len(s) > 500 {
-		return s[:500] + "…"
+	if len(s) > 4000 {
+		return s[:4000] + "…"
 	}
 	return s
 }
